@@ -410,7 +410,7 @@ def forall_histories(ctx, seed):
     from rsome import ro, dro
     r = np.random.default_rng(seed)
     ctx.search_cases += 1; ctx.evaluations += 1
-    kind = str(r.choice(['forall-after-solve', 'forall-after-solve-dro', 'piecewise-forall-twice', 'integer-var-after-solve']))
+    kind = str(r.choice(['forall-after-solve', 'forall-after-solve-dro', 'piecewise-forall-twice', 'integer-var-after-solve', 'equality-forall-after-st']))
     a = float(r.choice([1.0, 2.0, 0.5])); r1 = float(r.choice([1.0, 2.0])); r2 = r1 + float(r.choice([1.0, 3.0]))
     case = {"forall_seed": seed, "kind": kind}
 
@@ -434,6 +434,22 @@ def forall_histories(ctx, seed):
                 ref = dro.Model(1); x2 = ref.dvar(); z2 = ref.rvar()
                 g1 = ref.ambiguity(); g1.suppset(z2 >= 0, z2 <= r1); g2 = ref.ambiguity(); g2.suppset(z2 >= 0, z2 <= r2)
                 ref.minsup(rso.E(x2), g1); ref.st((x2 >= a * z2).forall(g2))
+            elif kind == 'equality-forall-after-st':
+                # a robust equality added to the model first and given its own set afterwards (with or without a solve in between)
+                def build(late):
+                    mm = ro.Model(); x = mm.dvar(2); y = mm.dvar(); z = mm.rvar(2)
+                    mm.minmax(y + 0 * z.sum(), abs(z) <= r2)
+                    c = ((x - 1) @ z + y - a * x.sum() == 0)
+                    mm.st(x >= 0, x <= 3)
+                    if late:
+                        mm.st(c)
+                        if r1 > 1:
+                            sol(mm)
+                        c.forall(z == 0.5 * r1)
+                    else:
+                        mm.st(c.forall(z == 0.5 * r1))
+                    return mm
+                m = build(True); ref = build(False)
             elif kind == 'piecewise-forall-twice':
                 m = ro.Model(); x = m.dvar(); z = m.rvar(); c = (rso.maxof(a * z - x, -a * z - x) <= 0)
                 c1 = c.forall(abs(z) <= r1); c2 = c.forall(abs(z) <= r2)
